@@ -48,7 +48,7 @@ THREAD_WRAPS = """pthread_create pthread_join
 pthread_mutex_lock pthread_mutex_trylock pthread_mutex_unlock
 pthread_cond_wait pthread_cond_timedwait pthread_cond_clockwait
 pthread_cond_signal pthread_cond_broadcast
-epoll_wait accept connect setsockopt
+epoll_wait accept connect setsockopt send
 """.split()
 
 
